@@ -35,6 +35,19 @@ def t_try(marker):
             f.write('finally')
 
 
+def t_slow_finally(marker, seconds=1.0):
+    """lets WorkerTerminatedError propagate; its clean-up takes a while (interruptible Python code) and then writes a marker"""
+    try:
+        while True:
+            time.sleep(0.005)
+    finally:
+        t0 = time.time()
+        while time.time() - t0 < seconds:
+            time.sleep(0.002)
+        with open(marker, 'w') as f:
+            f.write('cleaned')
+
+
 def t_item(x=0, y=1, *a, **k):
     return x * x * y
 
